@@ -97,6 +97,9 @@ pub enum PolicySpec {
     DoubleLimit(usize),
     /// answers Some(current) (no growth granted yet) k times, then doubles
     Stall(usize),
+    /// refuses its first k requests, then doubles (a budget that is raised, a limit that is
+    /// lifted by somebody else): the reader has to get over repeated refusals without losing its place
+    RefuseFirst(usize),
 }
 
 impl PolicySpec {
@@ -107,6 +110,7 @@ impl PolicySpec {
                 | PolicySpec::RefuseAfter(_)
                 | PolicySpec::DoubleLimit(_)
                 | PolicySpec::DoubleUntilLimited(_, _)
+                | PolicySpec::RefuseFirst(_)
         )
     }
 }
